@@ -56,15 +56,57 @@ def make_cfg(rng, profile):
         else:
             cfg['onConnect'].append(k)
     p_raise = profile.get('event_raise', 0.0)
+    # values the application keeps and returns again and again (the harness returns the SAME object for equal
+    # script values): a few per configuration, mostly with byte strings inside nested lists / dicts
+    assets = [gen_asset(rng) for _ in range(rng.randint(1, 3))]
+    p_asset = profile.get('asset_p', 0.3)
     for _ in range(80):
         if rng.random() < p_raise:
             cfg['onEvent'].append('raise')
+        elif rng.random() < p_asset:
+            cfg['onEvent'].append({'ret': copy.deepcopy(rng.choice(assets))})
         else:
             cfg['onEvent'].append({'ret': gen_ret(rng)})
     p_draise = profile.get('disconnect_raise', 0.0)
     for _ in range(40):
         cfg['onDisconnect'].append('raise' if rng.random() < p_draise else 'ok')
+    # harness-only: which of the outcomes accept / return None / disconnect handled a COROUTINE handler realises by
+    # letting asyncio.CancelledError escape ('await': out of an await on a cancelled future, 'bare': raised directly);
+    # the model is not told (the documented behaviour is that of the scripted outcome)
+    p_cancel = profile.get('cancel_p', 0.4)
+    cfg['cancel'] = []
+    for kind, key, neutral in (('connect', 'onConnect', 'accept'), ('event', 'onEvent', {'ret': None}),
+                               ('disconnect', 'onDisconnect', 'ok')):
+        for i, out in enumerate(cfg[key]):
+            if out == neutral and rng.random() < p_cancel:
+                cfg['cancel'].append([kind, i, rng.choice(['await', 'await', 'bare'])])
     return cfg
+
+
+def gen_asset(rng):
+    """a value an application typically keeps: a record (dict / list, sometimes inside a tuple) that contains byte
+    strings below the top level"""
+    def blob():
+        return G.gen_bytes(rng)
+    r = rng.random()
+    if r < 0.3:
+        v = {'name': rng.choice(['logo', 'beep', 'é']), 'body': blob()}
+    elif r < 0.5:
+        v = {'name': 'parts', 'parts': [blob() for _ in range(rng.randint(1, 3))], 'n': rng.randint(0, 9)}
+    elif r < 0.65:
+        v = [blob(), rng.choice(['x', 1, None]), {'k': blob()}]
+    elif r < 0.8:
+        v = [[blob()], rng.randint(0, 5)]
+    else:
+        v = G.gen_value(rng, 2, 0.5)
+        if not isinstance(v, (list, dict)):
+            v = {'v': v, 'raw': blob()}
+    r = rng.random()
+    if r < 0.2:
+        return ('ok', v)                   # several return values, the record among them
+    if r < 0.3:
+        return (v, blob())
+    return v
 
 
 def gen_ret(rng):
@@ -110,6 +152,7 @@ class Scenario:
         self.pending_frames = []  # rest of a multi-frame client packet
         self.max_t = profile.get('max_transports', 4)
         self.gone = []            # session ids that were connected once
+        self.emit_pool = []       # values the application emits more than once (the same object each time)
 
     # ---- learn from what the server sent
     def learn(self, op, obs):
@@ -266,7 +309,12 @@ class Scenario:
         rng = self.rng
         ns = rng.choice(NS_POOL[:3]) if rng.random() < 0.9 else '/zz'
         ev = rng.choice(EVENTS)
-        data = gen_ret(rng)
+        if self.emit_pool and rng.random() < 0.3:
+            data = copy.deepcopy(rng.choice(self.emit_pool))
+        else:
+            data = gen_asset(rng) if rng.random() < 0.15 else gen_ret(rng)
+            if isinstance(data, (list, dict, tuple)) and len(self.emit_pool) < 3:
+                self.emit_pool.append(copy.deepcopy(data))
         op = {'op': 'emit', 'ev': ev, 'data': data, 'ns': ns, 'to': self._target(ns), 'skip': [], 'cb': None}
         sids = self.sids(ns)
         r = rng.random()
